@@ -59,8 +59,9 @@ func NewServer(c Config, opts ...Option) (*Server, error) {
 
 // AddRoutes 添加一组路由到服务器 Server 中。
 func (s *Server) AddRoutes(rs []Route, opts ...RouteOption) {
+	// 保存调用方切片的副本：路由要到 Start 时才绑定，调用方此后复用或修改该切片不应改写已注册的路由
 	r := featuredRoutes{
-		routes: rs,
+		routes: append([]Route(nil), rs...),
 	}
 	for _, opt := range opts {
 		opt(&r)
